@@ -193,3 +193,41 @@ def text_property(pid, rep, replay=None):
 
 for _pid in ("C12", "C17", "C20"):
     REGISTRY[_pid] = text_property
+
+
+# ----------------------------------------------------------------------------- engine (real binary) family
+from . import sessionchk  # noqa: E402
+
+
+def engine_property(pid, rep, replay=None):
+    rep.broken = None
+    info = prove(pid, rep)
+    if not build_impl(rep, engine=True):
+        proof_coverage(rep, info, {})
+        return finish(rep, info)
+    tier = rep.tier if rep.broken is None else "thorough"
+    if pid == "C13":
+        stats, kinds, samples = sessionchk.check_c13(rep, tier)
+        rule = ("`go` with clock/increment/movetime tuples around every breakpoint of the budget function (0, 149-151, 7499-7501, 2^53±1, 2^64-1, …) "
+                "and random magnitudes, either side to move, sent to the real binary; `info time` compared with the Lean model and with the bounds; distinct = go commands")
+        distinct = stats.get("go_commands", 0)
+        evals = distinct
+    elif pid == "C14":
+        stats, kinds, samples = sessionchk.check_c14(rep, tier)
+        rule = ("scripted adversarial sessions with the schedule-point hooks stretching the named windows, plus random command sequences "
+                "with random delays, on the real binary; distinct = sessions")
+        distinct = stats.get("sessions", 0)
+        evals = stats.get("go_accepted", 0) + stats.get("go_refused", 0)
+    else:
+        stats, kinds, samples = sessionchk.check_c19(rep, tier)
+        rule = ("`position fen …; go depth N` on the real binary: fresh process, repeated, after unrelated searches + ucinewgame, with stretched "
+                "thread start-up, under CPU load; every transcript compared with the fresh one and with the Lean model's; distinct = runs")
+        distinct = stats.get("runs", 0)
+        evals = distinct
+    proof_coverage(rep, info, {"evaluations": max(1, evals), "distinct_nontrivial": distinct, "rule": rule,
+                               "samples": samples[:3] if samples else [], "stats": dict(stats), "kinds": dict(kinds)})
+    return finish(rep, info)
+
+
+for _pid in ("C13", "C14", "C19"):
+    REGISTRY[_pid] = engine_property
